@@ -104,6 +104,7 @@ def run_shard(spec, rec):
     kind = spec["kind"]
     if kind == "random":
         cfg = G.Cfg(filters=True, regex_functions=True, max_depth=3, big_ints=True)
+        cfg.regex_pool = cfg.regex_pool + G.HOSTILE_PATTERNS   # any string literal is a valid argument, whatever the pattern
         gen = G.QGen(R, cfg)
         strict = abnf.get(False)
         for i in range(spec["n"]):
